@@ -75,7 +75,8 @@ def second_tree(rt, rec, rooted):
 
     t = rt
     if kind == "redraw":
-        if not rooted:
+        if not rooted and len(t.children[t.root]) != 1:
+            # (re-seeding a drawing whose root has one child would leave that root behind as a taxon-less leaf)
             ints = t.internals()
             if ints:
                 t = t.rerooted_at(ints[rec["reseed"] % len(ints)])
